@@ -363,6 +363,13 @@ func scenMatch(rng *rand.Rand, tr *sim.Trace, seg int, events int) {
 				}
 			}
 			q := &query{y: y, t: t, hasA: y == "r", id: randID(rng), port: -1}
+			if rng.Intn(10) == 0 {
+				// not a response at all: the destination of an outstanding query pings the node with that very
+				// transaction ID. It must be answered like any ping, and it completes nothing
+				from, t = x.dst, append([]byte{}, x.t...)
+				q = &query{method: "ping", t: t, hasA: true, id: randID(rng), port: -1}
+				y = "q"
+			}
 			var b []byte
 			if y == "e" {
 				b = sim.Encode(sim.D("t", t, "y", "e", "e", sim.L(201, "x")))
@@ -377,7 +384,7 @@ func scenMatch(rng *rand.Rand, tr *sim.Trace, seg int, events int) {
 			for ci, c := range calls {
 				if open[ci] && h.ret(c, 0) {
 					open[ci] = false
-				} else if open[ci] && string(qs[ci].t) == string(t) && from.String() == qs[ci].dst.String() {
+				} else if y != "q" && open[ci] && string(qs[ci].t) == string(t) && from.String() == qs[ci].dst.String() {
 					// the genuine reply for this call: it must return
 					if h.ret(c, 30*time.Second) {
 						open[ci] = false
